@@ -196,6 +196,8 @@ def stage_gotest(ctx, st):
     ctx.extra.setdefault("gotest_stages", []).append(dict(stage=name, evaluations=res.get("evaluations"), distinct=res.get("distinct"), note=res.get("note")))
     for s in (res.get("samples") or [])[:2]:
         ctx.samples.append(dict(stage=name, sample=s))
+    if st.get("race_only"):   # the driver's own oracle belongs to another property; here only the race detector decides
+        res["known"], res["violations"] = [], []
     for k in res.get("known") or []:
         f = vlib.open_finding(ctx.prop, k["deviation"])
         if f:
